@@ -231,6 +231,21 @@ func permutations(ks []hist.Key, fn func([]hist.Key)) {
 	rec(0)
 }
 
+// drain runs body (a loop over a work channel) and reports whether it ended normally. A panic raised while one
+// item is processed - the implementation rejecting or mishandling a registered set in some order, for instance -
+// is recorded as a violation, and the caller starts body again to go on with the remaining items.
+func drain(mu *sync.Mutex, r *mc.Result, pool string, body func()) (done bool) {
+	defer func() {
+		if pv := recover(); pv != nil {
+			mu.Lock()
+			r.Violate("histories", "history-dependent", fmt.Sprintf("panic while a router for a registered set was built or observed (pool %s): %v\n%s", pool, pv, mc.NormStack(string(debug.Stack()), 12)), Case{Pool: pool})
+			mu.Unlock()
+		}
+	}()
+	body()
+	return true
+}
+
 func runPool(c *mc.Ctx, r *mc.Result, name string, p *hist.Pool, maxLive, permMax, maxStates int) {
 	fullCompare := 12000
 	if c.Quick() {
@@ -278,35 +293,38 @@ func runPool(c *mc.Ctx, r *mc.Result, name string, p *hist.Pool, maxLive, permMa
 		wg.Add(1)
 		go func() {
 			defer wg.Done()
-			for i := range ch {
-				st := g.States[i]
-				// beyond the first fullCompare states (BFS order) the probes are only run when the tree dump
-				// differs from the canonical router's: equal dumps route identically (merging argument)
-				if i >= fullCompare {
-					c0 := canonical(st.Model, sortedKeys(st.Model), nil)
-					if hist.ShapeDigest(c0) == st.Shape {
+			for !drain(&mu, r, name, func() {
+				for i := range ch {
+					st := g.States[i]
+					// beyond the first fullCompare states (BFS order) the probes are only run when the tree dump
+					// differs from the canonical router's: equal dumps route identically (merging argument)
+					if i >= fullCompare {
+						c0 := canonical(st.Model, sortedKeys(st.Model), nil)
+						if hist.ShapeDigest(c0) == st.Shape {
+							mu.Lock()
+							r.Count(name+".states_equal_to_canonical_dump", 1)
+							mu.Unlock()
+							continue
+						}
+					}
+					for prof := range profiles {
+						if time.Now().After(compareDeadline) {
+							continue
+						}
+						msg := compareHistory(p, probes, st.Path, prof)
 						mu.Lock()
-						r.Count(name+".states_equal_to_canonical_dump", 1)
+						r.Evaluations += int64(len(probes))
+						r.TracesValidated++
+						if len(st.Path) > len(st.Model) {
+							r.DistinctNontrivial++ // the history contains more than plain insertions
+						}
+						if msg != "" {
+							r.Violate("histories", "history-dependent", msg, Case{Pool: name, Quick: c.Quick(), Path: st.Path, Profile: prof})
+						}
 						mu.Unlock()
-						continue
 					}
 				}
-				for prof := range profiles {
-					if time.Now().After(compareDeadline) {
-						continue
-					}
-					msg := compareHistory(p, probes, st.Path, prof)
-					mu.Lock()
-					r.Evaluations += int64(len(probes))
-					r.TracesValidated++
-					if len(st.Path) > len(st.Model) {
-						r.DistinctNontrivial++ // the history contains more than plain insertions
-					}
-					if msg != "" {
-						r.Violate("histories", "history-dependent", msg, Case{Pool: name, Quick: c.Quick(), Path: st.Path, Profile: prof})
-					}
-					mu.Unlock()
-				}
+			}) {
 			}
 		}()
 	}
@@ -326,25 +344,28 @@ func runPool(c *mc.Ctx, r *mc.Result, name string, p *hist.Pool, maxLive, permMa
 		wg.Add(1)
 		go func() {
 			defer wg.Done()
-			for m := range ch2 {
-				base := observe(canonical(m, sortedKeys(m), nil), probes)
-				ks := sortedKeys(m)
-				permutations(ks, func(order []hist.Key) {
-					f := canonical(m, order, nil)
-					d := diff(observe(f, probes), base, probes)
-					mu.Lock()
-					r.Evaluations += int64(len(probes))
-					r.Count(name+".permutations", 1)
-					r.DistinctNontrivial++
-					if d != "" {
-						vers := map[string]int{}
-						for k, v := range m {
-							vers[k.Method+" "+k.Pattern] = v
+			for !drain(&mu, r, name, func() {
+				for m := range ch2 {
+					base := observe(canonical(m, sortedKeys(m), nil), probes)
+					ks := sortedKeys(m)
+					permutations(ks, func(order []hist.Key) {
+						f := canonical(m, order, nil)
+						d := diff(observe(f, probes), base, probes)
+						mu.Lock()
+						r.Evaluations += int64(len(probes))
+						r.Count(name+".permutations", 1)
+						r.DistinctNontrivial++
+						if d != "" {
+							vers := map[string]int{}
+							for k, v := range m {
+								vers[k.Method+" "+k.Pattern] = v
+							}
+							r.Violate("permutations", "order-dependent", fmt.Sprintf("insertion order %v routes differently from sorted insertion: %s", order, d), Case{Pool: name, Quick: c.Quick(), Order: append([]hist.Key{}, order...), Versions: vers})
 						}
-						r.Violate("permutations", "order-dependent", fmt.Sprintf("insertion order %v routes differently from sorted insertion: %s", order, d), Case{Pool: name, Quick: c.Quick(), Order: append([]hist.Key{}, order...), Versions: vers})
-					}
-					mu.Unlock()
-				})
+						mu.Unlock()
+					})
+				}
+			}) {
 			}
 		}()
 	}
